@@ -174,6 +174,30 @@ let corpus seed =
       let page = build_page r ~mode:0 items in
       run_parse ~tag:"corpus_forms" ~s:(c_auths (expected_roles (stored_of items))) (enc_page page) [])
     [ (false, false, 0); (true, false, 0); (false, true, 0); (true, true, 1) ];
+  (* a page filled to the last byte (pd_lower = pd_upper, no free space): n-1 roles without password and one whose
+     verifier length makes the tuples end exactly at the line pointer array (seeded change C14-1: `lower < upper`) *)
+  let mkpw pw =
+    let ro = gen_role r ~flags:(next_flags ()) in
+    let ro = { ro with r_password = pw; r_validuntil = None } in
+    let s = { (gen_stored r ~mask:(pick r masks) ro) with sr_extra = zi 0 } in
+    T (role_tup s, Some s) in
+  List.iter (fun n ->
+      let base = List.init (n - 1) (fun _ -> mkpw None) in
+      let used = 24 + 4 * n + List.fold_left (fun a it -> match it with T (t, _) -> a + maxalign (tlen t) | J _ -> a) 0 base in
+      let rest = 8192 - used in
+      let rec find l = if l > 400 then None else
+          let it = mkpw (Some (nz_bytes r l)) in
+          (match it with T (t, _) when maxalign (tlen t) = rest -> Some it | _ -> find (l + 1)) in
+      match find 1 with
+      | None -> ()
+      | Some last ->
+        let items = base @ [ last ] in
+        let page = build_page r ~mode:0 items in
+        if iz page.pg_upper <> 24 + 4 * n then failwith "full page is not full";
+        run_parse ~tag:"corpus_full_page" ~s:(c_auths (expected_roles (stored_of items))) (enc_page page) [];
+        run_parse ~tag:"corpus_full_page" ~s:(c_auths (expected_roles (stored_of items @ stored_of items)))
+          (enc_page page @ enc_page page) (rbytes r 7))
+    [ 70; 68; 66 ];
   (* the Coq writer page_of / enc_heap (heapam-like packing proved well-formed in Coq) *)
   let srs1 = List.init 9 (fun _ -> gen_stored r (gen_role r ~flags:(next_flags ()))) in
   let srs2 = List.init 5 (fun _ -> gen_stored r (gen_role r ~flags:(next_flags ()))) in
